@@ -23,7 +23,7 @@ Scheduling points come from two sources:
   `timeit.default_timer` in `mako.util`);
 * **every executed line of mako code** and every call into a generated template module (`sys.settrace` in the
   worker threads), for the randomised schedules; or every executed line of ONE mako source file
-  (`file_lines_predicate`), for the stop-line enumeration.
+  (`file_lines_predicate`) or of one class (`class_lines_predicate`), for the stop-line enumerations.
 
 A thread that wants the instrumented lock while it is held is *blocked* (not runnable).  Deadlock = some thread
 is unfinished and none is runnable; the scheduler then aborts every worker by raising `Abort` (a
@@ -764,6 +764,18 @@ def file_lines_predicate(relname):
 
     def pred(code):
         return "line" if code.co_filename == path else ""
+    return pred
+
+
+def class_lines_predicate(relname, qualprefix):
+    """line-level predicate for the methods of ONE class of a mako source file (e.g. 'util.py', 'LRUCache')"""
+    import mako
+    path = os.path.join(os.path.dirname(os.path.abspath(mako.__file__)), relname)
+
+    def pred(code):
+        if code.co_filename == path and getattr(code, "co_qualname", code.co_name).startswith(qualprefix):
+            return "line"
+        return ""
     return pred
 
 
